@@ -13,6 +13,7 @@ import (
 	"path/filepath"
 	"runtime"
 	"runtime/debug"
+	"runtime/metrics"
 	"sort"
 	"strings"
 	"time"
@@ -25,7 +26,6 @@ func init() {
 	fw.RegisterChild("c16pure", pureChild)
 	fw.RegisterChild("c16repl", replChild)
 	fw.RegisterChild("c16file", fileChild)
-	fw.RegisterChild("c16pg", pgChild)
 }
 
 const allocLimit = 256 << 20 // eight times the largest message bound the system declares (32 MiB)
@@ -41,14 +41,23 @@ type callResult struct {
 	Err      error
 }
 
+var allocSample = []metrics.Sample{{Name: "/gc/heap/allocs:bytes"}}
+
+// totalAlloc is runtime.MemStats.TotalAlloc (cumulative bytes allocated for heap
+// objects) read through runtime/metrics, i.e. without stopping the world twice
+// per input; allocations of 32 KiB and more are accounted at once, smaller ones
+// when their span is handed out, which is far below the 256 MiB being decided.
+func totalAlloc() uint64 {
+	metrics.Read(allocSample)
+	return allocSample[0].Value.Uint64()
+}
+
 // measure runs f under fw.Guard and returns the TotalAlloc delta of the call.
 func measure(f func() error) (res callResult) {
-	var m0, m1 runtime.MemStats
-	runtime.ReadMemStats(&m0)
+	a0 := totalAlloc()
 	var text string
 	res.Panicked, _, text = fw.Guard(func() { res.Err = f() })
-	runtime.ReadMemStats(&m1)
-	res.Alloc = m1.TotalAlloc - m0.TotalAlloc
+	res.Alloc = totalAlloc() - a0
 	if res.Panicked {
 		res.Text = text
 		res.Sig = sigOf(text)
@@ -126,7 +135,22 @@ func crashSig(ep, region, text string) string {
 	return sigOf(text)
 }
 
+// persistedOption returns the name of the option when the mutated region is the
+// value of an option persisted in an appendable metadata header
+// ("int:MAX_KEY_LEN", "bool:EMBEDDED_VALUES"), "" otherwise.
+func persistedOption(region string) string {
+	for _, p := range []string{"int:", "bool:"} {
+		if strings.HasPrefix(region, p) {
+			return strings.TrimPrefix(region, p)
+		}
+	}
+	return ""
+}
+
 func allocSig(ep, region string) string {
+	if persistedOption(region) != "" {
+		return ep + "/alloc-over-256MiB/persisted-option"
+	}
 	if region != "" {
 		return ep + "/alloc-over-256MiB/" + region
 	}
@@ -436,6 +460,7 @@ func Run(c *fw.Ctx) {
 	c.Assume("the Go runtime reports every panic and fatal error of the process under test (recover / exit status + stderr)")
 	c.Assume("runtime.MemStats.TotalAlloc delta around a call in a child that runs nothing else bounds the bytes the call allocated")
 	c.Assume("executing arbitrary SQL is outside the deciding set (parsing only)")
+	c.Assume("the PostgreSQL wire front-end is driven at the level of the fmessages.Parse* functions with every payload the message reader can hand them (0..MaxMsgSize bytes after the type byte and length); a whole pgsql session over net.Pipe is not driven (the session type is unexported and needs a listening immudb gRPC server behind it)")
 
 	root := c.Dir("corpus")
 	co, err := buildCorpora(c.Seed, root)
@@ -460,35 +485,38 @@ func Run(c *fw.Ctx) {
 		asLimit = n << 20
 	}
 	only := os.Getenv("VERIF_C16_ONLY") // development aid: restrict to one group
+	// wall time per group: diagnostics in the evidence only, never part of a verdict
+	timed := func(name string, f func()) {
+		t0 := time.Now()
+		f()
+		c.Set("wall_s:"+name, int(time.Since(t0).Seconds()))
+	}
 	if only == "" || only == "pure" {
-		runPure(c, co, setup.Bytes(), &confirm)
+		timed("pure", func() { runPure(c, co, setup.Bytes(), &confirm) })
 	}
 	if only == "" || only == "repl" {
-		runRepl(c, co, setup.Bytes(), &confirm)
+		timed("repl", func() { runRepl(c, co, setup.Bytes(), &confirm) })
 	}
 	if only == "" || only == "files" {
-		runFiles(c, co, setup.Bytes(), &confirm)
+		timed("files", func() { runFiles(c, co, setup.Bytes(), &confirm) })
 	}
-	if only == "" || only == "pg" {
-		runPg(c, co, setup.Bytes(), &confirm)
-	}
-	runConfirm(c, setup.Bytes(), confirm)
+	timed("confirm", func() { runConfirm(c, setup.Bytes(), confirm) })
 }
 
 func pureBudget(c *fw.Ctx, ep string) int {
 	// random inputs per entry point on top of the systematic enumeration
-	q, t := 6000, 700000
+	q, t := 6000, 350000
 	switch {
 	case strings.HasPrefix(ep, "sql."):
-		q, t = 12000, 1500000
+		q, t = 12000, 750000
 	case strings.HasPrefix(ep, "store."), ep == "appendable.NewMetadata":
-		q, t = 14000, 2500000
+		q, t = 14000, 1250000
 	case strings.HasPrefix(ep, "fmessages.ParseBind"), strings.HasPrefix(ep, "fmessages.ParseParse"), strings.HasPrefix(ep, "stream."):
-		q, t = 8000, 1000000
+		q, t = 8000, 500000
 	case strings.HasPrefix(ep, "fmessages."):
-		q, t = 1500, 100000
+		q, t = 1500, 50000
 	case strings.HasPrefix(ep, "schema.Dual"), ep == "schema.TxFromProto":
-		q, t = 5000, 500000
+		q, t = 5000, 250000
 	}
 	return c.N(q, t)
 }
